@@ -29,6 +29,27 @@ using namespace pvh;
 typedef std::vector<std::string> Toks;
 typedef std::uint64_t u64;
 
+#ifdef PV_LIMIT_NEW
+// Sanitizer builds: RLIMIT_AS cannot be used (shadow memory) and the sanitizer's own operator new
+// aborts instead of throwing when an allocation fails.  Replace the global operators (also for
+// libprimitiv) by malloc/free with the same size limit, so that a corrupted length field is
+// std::bad_alloc here as well; heap checks of malloc/free stay active.
+#include <cstdlib>
+#include <new>
+static std::size_t g_new_limit = static_cast<std::size_t>(2048) << 20;
+void *operator new(std::size_t n) {
+  if (n > g_new_limit) throw std::bad_alloc();
+  void *p = std::malloc(n ? n : 1);
+  if (!p) throw std::bad_alloc();
+  return p;
+}
+void *operator new[](std::size_t n) { return operator new(n); }
+void operator delete(void *p) noexcept { std::free(p); }
+void operator delete[](void *p) noexcept { std::free(p); }
+void operator delete(void *p, std::size_t) noexcept { std::free(p); }
+void operator delete[](void *p, std::size_t) noexcept { std::free(p); }
+#endif
+
 static Device *g_dev = nullptr;
 static std::string g_tmp;
 
@@ -428,6 +449,9 @@ int main() {
   std::ios::sync_with_stdio(false);
   signal(SIGXFSZ, SIG_IGN);
   const char *tmp = getenv("PV_IO_TMP"); g_tmp = tmp ? tmp : "/verif/_work/io-tmp";
+#ifdef PV_LIMIT_NEW
+  if (const char *as = getenv("PV_NEW_LIMIT_MB")) g_new_limit = static_cast<std::size_t>(std::stoull(as)) << 20;
+#endif
   if (const char *as = getenv("PV_AS_LIMIT_MB")) {
     struct rlimit l; l.rlim_cur = l.rlim_max = static_cast<rlim_t>(std::stoull(as)) << 20; setrlimit(RLIMIT_AS, &l);
   }
